@@ -45,6 +45,9 @@ type propDef struct {
 var registry = map[string]*propDef{}
 
 func register(p *propDef) {
+	if extra, ok := ruleExtras[p.ID]; ok {
+		p.Rule += " Added later: " + extra
+	}
 	if p.Shards == nil {
 		p.Shards = func(t string) int {
 			if t == "thorough" {
